@@ -142,9 +142,37 @@ def same_value(a, b):
     return a == b
 
 
+class _Skip(Exception):
+    pass
+
+
+def _guarded(node):
+    """Bottom-up evaluation of a closed literal expression with guards against huge results."""
+    if isinstance(node, ast.Constant):
+        return node.value
+    if isinstance(node, ast.UnaryOp):
+        v = _guarded(node.operand)
+        return {'USub': operator.neg, 'UAdd': operator.pos, 'Invert': operator.invert, 'Not': operator.not_}[type(node.op).__name__](v)
+    if isinstance(node, ast.BinOp):
+        l, r = _guarded(node.left), _guarded(node.right)
+        op = type(node.op).__name__
+        if op == 'Pow' and isinstance(r, int) and not isinstance(l, (float, complex)) and abs(r) > 5000 and l not in (0, 1, -1, True, False):
+            raise _Skip()
+        if op == 'LShift' and isinstance(r, int) and r > 300000 and l:
+            raise _Skip()
+        if op == 'Mult' and isinstance(l, int) and isinstance(r, int) and l.bit_length() + r.bit_length() > 4000000:
+            raise _Skip()
+        return PYOPS[op](l, r)
+    raise _Skip()
+
+
 def outcome(expr_src):
     try:
-        return ('ok', eval(expr_src, {'__builtins__': {}}, {}))
+        return ('ok', _guarded(ast.parse(expr_src, mode='eval').body))
+    except _Skip:
+        return ('skip', None)
+    except RecursionError:
+        return ('skip', None)
     except Exception as e:
         return ('exc', e.__class__.__name__)
 
@@ -211,6 +239,8 @@ def check_program(ctx, src, stage, do_oracle=True):
                 a_out = align_outcomes(tree, out_tree)
             if a_out is not None:
                 for (kb, vb), (ka, va), s in zip(b_out, a_out, before):
+                    if kb == 'skip' or ka == 'skip':
+                        continue
                     if kb != ka or (kb == 'exc' and vb != va) or (kb == 'ok' and not same_value(vb, va)):
                         viol = 'literal expression %s evaluates to %r before and %r after folding' % (s[:80], (kb, vb), (ka, va))
                         break
